@@ -10,6 +10,7 @@ import (
 	"github.com/basecomplextech/baselibrary/buffer"
 	"github.com/basecomplextech/spec"
 	"verif/harness/internal/hx"
+	"verif/harness/internal/rd"
 )
 
 // rtOp is the Go-only oracle of C10: encode, decode through every reader of the family (bare and
@@ -213,7 +214,7 @@ func c13Op(b []byte) (out string) {
 			add("reparse-size")
 		}
 	}()
-	w := walk(v, v)
+	w := rd.Walk(v, v)
 	if strings.Contains(w, "!") || strings.Contains(w, "PANIC") {
 		add("reread-error")
 	}
@@ -231,7 +232,7 @@ func c13Op(b []byte) (out string) {
 				add("prefix-parse-size")
 			}
 		}()
-		if walk(pb, pb) != w {
+		if rd.Walk(pb, pb) != w {
 			add("prefix-walk-differs")
 		}
 	}
